@@ -52,29 +52,35 @@ def qOf (orig : Bytes) (qs e : Nat) : Q :=
   | some s => qClass (trimWs s)
   | none => .one
 
-/-- the `for (position, byte)` loop of `list_header` -/
+/-- one iteration of the `for (position, byte)` loop of `list_header` (`nextSp`: the byte after this one is a space) -/
+def lstep (orig : Bytes) (b : UInt8) (nextSp : Bool) (pos : Nat) (st : LSt) : LSt :=
+  if b = SP then st else
+  let st := if st.inQuality ∧ st.qStart = 0 ∧ (isDigit b ∨ b = 46) then { st with qStart := pos } else st
+  let st := if b = SEMI ∧ ¬ st.inQuality then { st with endByte := pos, inQuality := true } else st
+  let st := if st.inQuality then
+      let st := if b = EQ ∧ st.prevQ then { st with qStart := pos + 1 } else st
+      { st with prevQ := b == LQ }
+    else st
+  if b = COMMA then
+    let q := qOf orig st.qStart pos
+    let out := match sliceGet orig st.startByte (if st.endByte = 0 then pos else st.endByte) with
+      | some v => st.out ++ [(trimWs v, q)]
+      | none => st.out
+    let start := if nextSp then pos + 2 else pos + 1
+    { st with out := out, qStart := 0, endByte := 0, startByte := start, inQuality := false }
+  else st
+
+/-- "Last, when reaches EOF" -/
+def lfin (orig : Bytes) (st : LSt) : List (Bytes × Q) :=
+  let q := qOf orig st.qStart orig.length
+  match sliceGet orig st.startByte (if st.endByte = 0 then orig.length else st.endByte) with
+  | some v => st.out ++ [(trimWs v, q)]
+  | none => st.out
+
+/-- the loop of `list_header` -/
 def lgo (orig : Bytes) : Bytes → Nat → LSt → List (Bytes × Q)
-  | [], _, st =>
-    let q := qOf orig st.qStart orig.length
-    match sliceGet orig st.startByte (if st.endByte = 0 then orig.length else st.endByte) with
-    | some v => st.out ++ [(trimWs v, q)]
-    | none => st.out
-  | b :: rest, pos, st =>
-    if b = SP then lgo orig rest (pos + 1) st else
-    let st := if st.inQuality ∧ st.qStart = 0 ∧ (isDigit b ∨ b = 46) then { st with qStart := pos } else st
-    let st := if b = SEMI ∧ ¬ st.inQuality then { st with endByte := pos, inQuality := true } else st
-    let st := if st.inQuality then
-        let st := if b = EQ ∧ st.prevQ then { st with qStart := pos + 1 } else st
-        { st with prevQ := b == LQ }
-      else st
-    if b = COMMA then
-      let q := qOf orig st.qStart pos
-      let out := match sliceGet orig st.startByte (if st.endByte = 0 then pos else st.endByte) with
-        | some v => st.out ++ [(trimWs v, q)]
-        | none => st.out
-      let start := if rest.head? = some SP then pos + 2 else pos + 1
-      lgo orig rest (pos + 1) { st with out := out, qStart := 0, endByte := 0, startByte := start, inQuality := false }
-    else lgo orig rest (pos + 1) st
+  | [], _, st => lfin orig st
+  | b :: rest, pos, st => lgo orig rest (pos + 1) (lstep orig b (rest.head? == some SP) pos st)
 
 def listHeader (h : Bytes) : List (Bytes × Q) := lgo h h 0 {}
 
